@@ -366,7 +366,8 @@ class RealFloat(numbers.Rational):
                     other_sgn = math.copysign(1.0, other) # extract the sign bit
                     s = self._s != (other_sgn < 0)
                     res_sgn = -1.0 if s else 1.0
-                    return other * res_sgn
+                    # `s` is already the sign of the product
+                    return math.copysign(other, res_sgn)
                 else:
                     other = RealFloat.from_float(other)
             case Fraction():
